@@ -194,6 +194,7 @@ class UMFPACKSolver(SuiteSparseSolver):
             umfpack.linsolve(A, b)
         except ArithmeticError:
             logger.error('Singular matrix. Case is not solvable')
+            return np.ravel(matrix(np.nan, b.size, 'd'))
         return np.ravel(b)
 
 
@@ -219,4 +220,5 @@ class KLUSolver(SuiteSparseSolver):
             klu.linsolve(A, b)
         except ArithmeticError:
             logger.error('Singular matrix. Case is not solvable')
+            return np.ravel(matrix(np.nan, b.size, 'd'))
         return np.ravel(b)
